@@ -347,7 +347,7 @@ def dynamics(with_path=False):
 # per-type value strategy
 
 
-def scalar_value(tname, depth=0, for_json=False):
+def scalar_value(tname, depth=0, types=None):
     """Strategy for a non-None input value of scalar type tname."""
     if tname == "boolean":
         return st.one_of(st.booleans(), st.sampled_from([0, 1]))
@@ -376,7 +376,7 @@ def scalar_value(tname, depth=0, for_json=False):
     if tname == "path":
         return paths()
     if tname == "record":
-        return record_spec(depth + 1).map(lambda r: M("rec", r))
+        return record_spec(depth + 1, types=types).map(lambda r: M("rec", r))
     if tname == "stringlist":
         return stringlists()
     if tname == "dictlist":
@@ -390,13 +390,13 @@ def scalar_value(tname, depth=0, for_json=False):
     raise KeyError(tname)
 
 
-def value_for(tname, depth=0, none_p=0.15):
+def value_for(tname, depth=0, types=None):
     """Strategy for an input value (incl. None) of type tname (scalar or list form)."""
     if tname.endswith("[]"):
-        inner = scalar_value(tname[:-2], depth)
+        inner = scalar_value(tname[:-2], depth, types)
         lst = st.lists(inner, max_size=4)
         return st.one_of(st.none(), lst, lst, lst, lst)
-    sv = scalar_value(tname, depth)
+    sv = scalar_value(tname, depth, types)
     return st.one_of(*([st.none()] + [sv] * 6))
 
 
@@ -424,7 +424,7 @@ def meta_text():
 def record_spec(draw, depth=0, desc=None, types=None):
     """{'desc': (name, fields), 'vals': [...], 'src':, 'cls':, 'gen': aware datetime}"""
     d = desc or draw(descriptor_spec(depth, types))
-    vals = [draw(value_for(t, depth)) for t, _ in d[1]]
+    vals = [draw(value_for(t, depth, types)) for t, _ in d[1]]
     return {
         "desc": d,
         "vals": vals,
